@@ -37,6 +37,10 @@ pub enum Op {
     /// one peer delivers its next block and, in the same barrier, another peer with something outstanding goes away
     DeliverWhileOtherLeaves(u16, u16),
     Disconnect(u16),
+    /// the manager task is not scheduled for a while: meanwhile one peer sends 70 interested messages
+    /// (its task's notifications fill the manager's 64-entry queue), then another peer chokes the client; then the
+    /// manager runs again
+    ManagerLate(u16, u16),
 }
 
 #[derive(Clone, Debug, Serialize, Deserialize)]
@@ -65,6 +69,7 @@ fn strategy() -> BoxedStrategy<Case> {
         2 => Just(Op::Wait),
         2 => (any::<u16>(), any::<u16>()).prop_map(|(a, b)| Op::DeliverWhileOtherLeaves(a, b)),
         1 => any::<u16>().prop_map(Op::Disconnect),
+        1 => (any::<u16>(), any::<u16>()).prop_map(|(a, b)| Op::ManagerLate(a, b)),
     ];
     // scenario templates that reach deep states; random ops follow
     let template = prop_oneof![
@@ -317,11 +322,49 @@ pub fn check_c13_only(c: &Case) -> Outcome {
     o
 }
 
+/// Decoder for the coverage-guided campaign (fuzz target fz_hist): 3 header bytes, then one opcode byte and one or two
+/// argument bytes per op, up to 120 ops.
+pub fn case_from_bytes(data: &[u8]) -> Case {
+    let mut r = crate::gen::ByteReader::new(data);
+    let pieces = 3 + r.below(14);
+    let piece_len = if r.bool() { 1 } else { 1 + r.below(64) };
+    let seed = r.u16() as u64;
+    let mut ops = vec![];
+    while !r.done() && ops.len() < 120 {
+        let op = match r.below(20) {
+            0 | 1 => Op::Join(r.u8() as u64 | ((r.u8() as u64) << 8) | ((r.u8() as u64) << 16) | ((r.u8() as u64) << 24)),
+            2 => Op::Have(r.ix(), r.ix()),
+            3 => Op::Bitfield(r.ix(), r.u32() as u64),
+            4 => Op::Choke(r.ix()),
+            5 => Op::ChokeKeep(r.ix()),
+            6 | 7 | 8 => Op::Unchoke(r.ix()),
+            9 => Op::UnchokeTwice(r.ix()),
+            10 => Op::Interested(r.ix()),
+            11 => Op::NotInterested(r.ix()),
+            12 | 13 | 14 => Op::Deliver(r.ix()),
+            15 => Op::DeliverAll(r.ix()),
+            16 => Op::DeliverCancelled(r.ix()),
+            17 => Op::DeliverAllPeersAtOnce,
+            18 => {
+                if r.bool() {
+                    Op::Wait
+                } else {
+                    Op::DeliverWhileOtherLeaves(r.ix(), r.ix())
+                }
+            }
+            19 if r.bool() => Op::ManagerLate(r.ix(), r.ix()),
+            _ => Op::Disconnect(r.ix()),
+        };
+        ops.push(op);
+    }
+    Case { pieces, piece_len, ops, seed }
+}
+
 pub fn histories_strategy() -> BoxedStrategy<Case> {
     strategy()
 }
 
-fn check_all(c: &Case) -> Outcome {
+pub fn check_all(c: &Case) -> Outcome {
     let mut o = Outcome::new();
     fresh_cwd();
     let total = c.pieces * c.piece_len;
@@ -489,6 +532,28 @@ fn check_all(c: &Case) -> Outcome {
                             classes.push("late-block-after-cancel");
                         }
                     }
+                    Op::ManagerLate(a, b) => {
+                        if live.len() >= 2 {
+                            let flooder = live[idx(*a, live.len())];
+                            let others: Vec<usize> = live.iter().copied().filter(|p| *p != flooder).collect();
+                            let other = others[idx(*b, others.len())];
+                            let assigned = w.snapshot().peers.iter().any(|ps| ps.addr == net.peers[other].addr && ps.piece_index.is_some());
+                            w.manager_stalled = true;
+                            // (interested only: a not-interested makes the task wait for the manager's answer)
+                            for _ in 0..70 {
+                                net.interested(w, flooder, true);
+                            }
+                            w.settle().await;
+                            net.choke(w, other);
+                            w.settle().await;
+                            w.manager_stalled = false;
+                            classes.push("manager-not-scheduled-while-its-queue-fills");
+                            if assigned {
+                                classes.push("choke-while-assigned");
+                                classes.push("choke-while-assigned-and-manager-queue-full");
+                            }
+                        }
+                    }
                     Op::Disconnect(p) => {
                         if let Some(p) = pick(*p) {
                             let assigned = w.snapshot().peers.iter().any(|ps| ps.addr == net.peers[p].addr && ps.piece_index.is_some());
@@ -557,7 +622,7 @@ fn check_all(c: &Case) -> Outcome {
 pub fn def() -> PropDef {
     PropDef {
         id: "C12",
-        rule: "up to 5 scripted remote peers and 3-16 single-block pieces (1-64 bytes) on the swarm runtime, driven through the real connection tasks so that only command sequences a task can emit reach the manager; a global history of up to 80 ops {join with a generated bitfield, have, choke, unchoke, unchoke twice, interested, not-interested, deliver next outstanding block, deliver all, disconnect}, redundant and out-of-order events on purpose. After every barrier: Have is monotone; every Reserved(n>=1) piece is assigned to some connected peer that is not choking the client (by the last Choke/Unchoke it sent) and that has been sent a Request for it in its current assignment (one-directional: an unreserved fetched piece is not a violation); every Request names a piece the peer advertised and the client lacked when assigned; no manager step or task panics (a manager Err counts: the event loop expect()s it). Finally an honest peer holding everything joins and the download must complete. Non-trivial = >= 2 peers, a choke or disconnect while a piece was assigned, and >= 10 pieces missing at some point with 2 peers connected; distinct by hash of the case.",
+        rule: "up to 5 scripted remote peers and 3-16 single-block pieces (1-64 bytes) on the swarm runtime, driven through the real connection tasks so that only command sequences a task can emit reach the manager; a global history of up to 80 ops {join with a generated bitfield, have, choke, unchoke, unchoke twice, interested, not-interested, deliver next outstanding block, deliver all, disconnect, manager-late (the manager is not scheduled while one peer's 70 Interested messages fill its 64-entry command queue and another peer chokes the client; then it runs again)}, redundant and out-of-order events on purpose. After every barrier: Have is monotone; every Reserved(n>=1) piece is assigned to some connected peer that is not choking the client (by the last Choke/Unchoke it sent) and that has been sent a Request for it in its current assignment (one-directional: an unreserved fetched piece is not a violation); every Request names a piece the peer advertised and the client lacked when assigned; no manager step or task panics (a manager Err counts: the event loop expect()s it). Finally an honest peer holding everything joins and the download must complete. Non-trivial = >= 2 peers, a choke or disconnect while a piece was assigned, and >= 10 pieces missing at some point with 2 peers connected; distinct by hash of the case.",
         assumptions: &[
             "blocks are always correct in this check (corrupt data is C01's subject)",
             "KillReq is stepped as kill_peer only; respawn/re-announce is covered by the real-process layer",
@@ -567,7 +632,7 @@ pub fn def() -> PropDef {
             cases: |t| t.pick(12_000, 200_000),
             run: |ctx| run_proptest(ctx, "histories", strategy(), check),
             replay: |v| replay_case::<Case>(v, check),
-            min_class: &[(">=2-peers", 0.4196), ("choke-while-assigned", 0.2), ("disconnect-while-assigned", 0.1), (">=10-missing-with-2-peers", 0.15), ("redundant-unchoke", 0.2), ("redundant-choke", 0.1), ("block-delivered-while-choking", 0.02), ("repeated-bitfield", 0.1), ("late-block-after-cancel", 0.01), ("fetcher-leaves-as-the-other-completes-the-same-piece", 0.005)],
+            min_class: &[(">=2-peers", 0.4196), ("choke-while-assigned", 0.2), ("disconnect-while-assigned", 0.1), (">=10-missing-with-2-peers", 0.15), ("redundant-unchoke", 0.2), ("redundant-choke", 0.1), ("block-delivered-while-choking", 0.02), ("repeated-bitfield", 0.1), ("late-block-after-cancel", 0.01), ("fetcher-leaves-as-the-other-completes-the-same-piece", 0.005), ("choke-while-assigned-and-manager-queue-full", 0.05)],
         }],
     }
 }
